@@ -127,6 +127,44 @@ theorem layout_contiguous : ∀ (cs : List Nat) (off : Nat),
       rw [h3 j (by simpa [layoutFrom] using hi)]
       omega
 
+/-! ### CopyObject of a source key that holds no object
+
+  FULL statement (false of the code): `∀ st src dst, findObj st src = none → copyObj st src dst` changes nothing
+  and the request is refused (S3: NoSuchKey). `CopyObjectHandler` never looks at the status of the filer's
+  answer for the source, so the body of the 404 answer (empty) — or the filer's directory listing page when the
+  source names a directory — is stored under the destination and 200 is returned. -/
+
+/-- WITNESS (finding CopyObjectHandler/missing-source-creates-empty-object): in an empty bucket, copying the
+    missing key "no" to "cp" leaves a 0-byte object "cp" in the model of the code, while the specification
+    refuses the copy and the judge names the class -/
+theorem copy_of_missing_source_creates_empty_object :
+    (copyObj {} [[110, 111]] [[99, 112]]).map (fun r => r.1.objs) = some [⟨[[99, 112]], []⟩] ∧
+    specCopy [] [[110, 111]] [[99, 112]] = none ∧
+    copyJudge [] [[110, 111]] [[99, 112]] true = some "CopyObjectHandler/missing-source-creates-empty-object" := by decide
+
+/-- WITNESS, same class: the destination may be an EXISTING object, whose bytes are replaced by nothing -/
+theorem copy_of_missing_source_truncates_existing_object :
+    (copyObj { objs := [⟨[[97]], [⟨2, 0, 20⟩]⟩] } [[110, 111]] [[97]]).map (fun r => r.1.objs) = some [⟨[[97]], []⟩] := by decide
+
+/-- WITNESS (finding CopyObjectHandler/directory-source-stores-filer-listing-page): with only "a/b" stored,
+    copying "a" to "cp" stores bytes nobody wrote (the model keeps them opaque) -/
+theorem copy_of_directory_source_stores_listing_page :
+    copyBody { objs := [⟨[[97], [98]], [⟨7, 0, 100⟩]⟩] } [[97]] = .listingPage ∧
+    copyJudge [⟨[[97], [98]], [⟨7, 0, 100⟩]⟩] [[97]] [[99, 112]] true
+      = some "CopyObjectHandler/directory-source-stores-filer-listing-page" := by decide
+
+/-- PARTIAL: when the source key holds an object (in model and specification alike) and the destination is stored
+    under its own key, the copy is exactly the specification's copy and the judge is silent -/
+theorem copy_eq_spec_partial (st : St) (src dst : List Bytes) (ob : Obj)
+    (hs : findObj st src = some ob) (ht : putTarget st dst = some dst) :
+    (copyObj st src dst).map (fun r => r.1.objs) = specCopy st.objs src dst ∧
+    copyJudge st.objs src dst true = none := by
+  have hf : st.objs.find? (fun x => x.key == src) = some ob := hs
+  simp [copyObj, ht, copyBody, hs, CopyBody.data, specCopy, hf, putObj, specPut, copyJudge]
+
+example : findObj { objs := [⟨[[97]], [⟨2, 0, 20⟩]⟩] } [[97]] = some ⟨[[97]], [⟨2, 0, 20⟩]⟩ ∧
+    putTarget { objs := [⟨[[97]], [⟨2, 0, 20⟩]⟩] } [[99, 112]] = some [[99, 112]] := by decide
+
 /-! ### bridges to the source (regenerated by the extractor on every run) -/
 
 theorem bridge_max_part_id : SwV.Gen.C28.globalMaxPartID = (maxPartID : Int) := by decide
